@@ -20,13 +20,13 @@
 
 use crate::sched;
 use crate::util::*;
-use metrics::{CounterFn, GaugeFn, HistogramFn, Key, Label};
+use metrics::{CounterFn, GaugeFn, HistogramFn, Key, KeyHasher, Label};
 use metrics_util::registry::{AtomicStorage, Registry, Storage};
 use metrics_util::storage::AtomicBucket;
 use metrics_util::{DefaultHashable, Hashable};
 use std::any::Any;
 use std::collections::{BTreeMap, BTreeSet};
-use std::hash::{Hash, Hasher};
+use std::hash::{BuildHasher, BuildHasherDefault, Hash, Hasher};
 use std::sync::atomic::{AtomicU64, AtomicUsize, Ordering};
 use std::sync::{Arc, Mutex};
 
@@ -199,6 +199,42 @@ where
             _ => self.reg.delete_histogram(k),
         }
     }
+    /// `get_or_create_*` whose `op` closure unwinds (caught here) after it has been handed the storage: on the create
+    /// path the shard's WRITE guard is dropped during the unwind, which poisons that shard's `RwLock` for good
+    /// (`resume_unwind`: a real unwind, `thread::panicking()` is true, but the panic hook prints nothing)
+    fn goc_panic(&mut self, kind: u8, k: &K) -> Got {
+        use std::panic::{catch_unwind, resume_unwind, AssertUnwindSafe};
+        let Sut { reg, seen, .. } = self;
+        let mut got: Option<Got> = None;
+        let res = catch_unwind(AssertUnwindSafe(|| match kind {
+            0 => reg.get_or_create_counter(k, |c| -> () {
+                got = Some(see(seen, c));
+                resume_unwind(Box::new(()))
+            }),
+            1 => reg.get_or_create_gauge(k, |c| -> () {
+                got = Some(see(seen, c));
+                resume_unwind(Box::new(()))
+            }),
+            _ => reg.get_or_create_histogram(k, |c| -> () {
+                got = Some(see(seen, c));
+                resume_unwind(Box::new(()))
+            }),
+        }));
+        assert!(res.is_err(), "the op closure must have unwound");
+        got.expect("op closure was called")
+    }
+    /// `retain_*` whose predicate unwinds at its FIRST call (nothing has been removed yet; the shard's write guard is
+    /// dropped during the unwind: poisoned). Returns whether the predicate was called at all.
+    fn retain_panic(&mut self, kind: u8) -> bool {
+        use std::panic::{catch_unwind, resume_unwind, AssertUnwindSafe};
+        let reg = &self.reg;
+        let res = catch_unwind(AssertUnwindSafe(|| match kind {
+            0 => reg.retain_counters(|_, _| -> bool { resume_unwind(Box::new(())) }),
+            1 => reg.retain_gauges(|_, _| -> bool { resume_unwind(Box::new(())) }),
+            _ => reg.retain_histograms(|_, _| -> bool { resume_unwind(Box::new(())) }),
+        }));
+        res.is_err()
+    }
     /// returns what the predicate was called with, in call order
     fn retain(&mut self, kind: u8, keep: &dyn Fn(&K, usize) -> bool) -> Vec<(K, Got)> {
         let Sut { reg, seen, .. } = self;
@@ -253,18 +289,37 @@ struct RefMap {
     live: BTreeMap<(u8, usize), usize>,
     ever: BTreeSet<usize>,
     created: usize,
+    /// set for the two-hash key stream: the id of the (proposed) known finding every failure of this reference map is a
+    /// consequence of. Reported as an oracle failure `"<id>: …"` when known_findings.json lists the id (the check
+    /// recognises it only in cases where the Lean model reproduces every answer), otherwise counted.
+    finding: Option<&'static str>,
 }
 
 impl RefMap {
+    fn fail(&self, out: &mut Out, what: &str, detail: &str) {
+        match self.finding {
+            None => out.oracle_fail(what, detail),
+            Some(id) => {
+                // the two-hash defect is REPAIRED in the repository (fix: new entries are filed under `K::hashable()`):
+                // a recurrence is a violation like any other, unless known_findings.json lists it again
+                out.count(&format!("{}.consequence", id));
+                if known_has(id) {
+                    out.oracle_fail(&format!("{}: {}", id, what), detail);
+                } else {
+                    out.oracle_fail(what, &format!("{} [third-party key type whose Hashable::Hasher is not the registry's]", detail));
+                }
+            }
+        }
+    }
     fn goc(&mut self, out: &mut Out, kind: u8, cls: usize, g: &Got, key_canon: &str) -> bool {
         if let Some(k) = g.kind {
             if k != kind {
-                out.oracle_fail("get_or_create returned a storage of another metric kind", &format!("asked {} got {}", kind, k));
+                self.fail(out, "get_or_create returned a storage of another metric kind", &format!("asked {} got {}", kind, k));
             }
         }
         if let Some(c) = &g.canon {
             if c != key_canon {
-                out.oracle_fail(
+                self.fail(out, 
                     "get_or_create returned a storage that was created for a different (unequal) key",
                     &format!("key {:?} storage made for {:?}", key_canon, c),
                 );
@@ -273,7 +328,7 @@ impl RefMap {
         match self.live.get(&(kind, cls)) {
             Some(a) => {
                 if *a != g.addr {
-                    out.oracle_fail(
+                    self.fail(out, 
                         "get_or_create of an equal key (no delete in between) returned a different storage",
                         &format!("kind {} class {} storage id {}", kind, cls, g.id),
                     );
@@ -282,7 +337,7 @@ impl RefMap {
             }
             None => {
                 if !self.ever.insert(g.addr) {
-                    out.oracle_fail(
+                    self.fail(out, 
                         "get_or_create of an absent key returned a storage that another kind/key/lifetime already had",
                         &format!("kind {} class {} storage id {}", kind, cls, g.id),
                     );
@@ -297,7 +352,7 @@ impl RefMap {
         match (self.live.get(&(kind, cls)), g) {
             (None, None) => {}
             (Some(a), Some(g)) if *a == g.addr => {}
-            (want, got) => out.oracle_fail(
+            (want, got) => self.fail(out, 
                 "get_* did not return the live storage of the key",
                 &format!("kind {} class {} live {:?} got {:?}", kind, cls, want.is_some(), got.as_ref().map(|g| g.id)),
             ),
@@ -306,7 +361,7 @@ impl RefMap {
     fn del(&mut self, out: &mut Out, kind: u8, cls: usize, res: bool) {
         let was = self.live.remove(&(kind, cls)).is_some();
         if was != res {
-            out.oracle_fail("delete_* reported existence untruthfully", &format!("kind {} class {} existed {} reported {}", kind, cls, was, res));
+            self.fail(out, "delete_* reported existence untruthfully", &format!("kind {} class {} existed {} reported {}", kind, cls, was, res));
         }
     }
     fn listing(&self, kind: u8) -> Vec<(usize, usize)> {
@@ -316,7 +371,7 @@ impl RefMap {
         let mut g = got.to_vec();
         g.sort();
         if g != self.listing(kind) {
-            out.oracle_fail(
+            self.fail(out, 
                 &format!("{} at quiescence does not report exactly the live keys, each once", what),
                 &format!("kind {} reported {} entries, live {}", kind, g.len(), self.listing(kind).len()),
             );
@@ -505,6 +560,64 @@ impl Hash for CKey {
     }
 }
 
+/// is the finding id listed in known_findings.json? (same convention as harness/src/c12.rs: an oracle failure for a
+/// finding that is not listed there would be a new violation; the reproduction is always counted in the distribution)
+fn known_has(id: &str) -> bool {
+    let p = concat!(env!("CARGO_MANIFEST_DIR"), "/../known_findings.json");
+    std::fs::read_to_string(p).map(|s| s.contains(&format!("\"{}\"", id))).unwrap_or(false)
+}
+
+/// the hash the registry's maps file a NEW entry under when the insertion re-hashes the key itself: the shard maps
+/// are `HashMap<K, V, BuildHasherDefault<RegistryHasher>>` with `RegistryHasher = KeyHasher` (registry/mod.rs:25-26)
+fn map_hash<K: Hash>(k: &K) -> u64 {
+    BuildHasherDefault::<KeyHasher>::default().hash_one(k)
+}
+
+/// A `Hasher` that is not `KeyHasher` (what `Hashable::Hasher` explicitly invites, common.rs:13-15): `KeyHasher`'s
+/// value with the top bit flipped. hashbrown's control byte is the top 7 bits of the hash, so an entry filed under
+/// one of the two values can NEVER be found by a lookup with the other: which of the two hashes the registry files an
+/// entry under is observable deterministically (no accidental tag match).
+#[derive(Default)]
+pub struct FlipHasher(KeyHasher);
+impl Hasher for FlipHasher {
+    fn write(&mut self, b: &[u8]) {
+        self.0.write(b)
+    }
+    fn finish(&self) -> u64 {
+        self.0.finish() ^ (1u64 << 63)
+    }
+}
+
+/// a third-party key: `Hash + Eq + Clone`, `Hashable` through the trait's DEFAULT `hashable()` with its own hasher
+#[derive(Clone, Debug)]
+#[allow(dead_code)]
+pub struct TKey {
+    cls: u32,
+    var: u32,
+    h: u64,
+}
+impl PartialEq for TKey {
+    fn eq(&self, o: &Self) -> bool {
+        self.cls == o.cls
+    }
+}
+impl Eq for TKey {}
+impl Hash for TKey {
+    fn hash<Hh: Hasher>(&self, s: &mut Hh) {
+        s.write_u64(self.h);
+    }
+}
+impl Hashable for TKey {
+    type Hasher = FlipHasher;
+}
+
+/// the innocent version of the same: a derived-`Hash` string key with the standard library's SipHash
+#[derive(Clone, Debug, PartialEq, Eq, Hash)]
+pub struct SipKey(pub String);
+impl Hashable for SipKey {
+    type Hasher = std::collections::hash_map::DefaultHasher;
+}
+
 // ---------------------------------------------------------------------------------------------
 // stream A
 
@@ -526,6 +639,7 @@ fn seq_case<K, S>(
     canon_of: &dyn Fn(&K) -> String,
     counting: Option<&dyn Fn(&Sut<K, S>) -> usize>,
     nops: usize,
+    finding: Option<&'static str>,
 ) where
     K: Clone + Eq + Hashable + std::fmt::Debug,
     S: Storage<K> + std::fmt::Debug,
@@ -533,7 +647,7 @@ fn seq_case<K, S>(
     S::Gauge: Ident + std::fmt::Debug,
     S::Histogram: Ident + std::fmt::Debug,
 {
-    let mut rf = RefMap::default();
+    let mut rf = RefMap { finding, ..RefMap::default() };
     out.op(&format!("registry new {}", sut.mask + 1), "ok");
     out.count(&format!("shards={}", sut.mask + 1));
     let (mut hits, mut dels, mut lists) = (0, 0, 0);
@@ -543,8 +657,9 @@ fn seq_case<K, S>(
         let kind = *r.pick(&kinds);
         let kt = kind_tok(kind);
         let (cls, key) = r.pick(pool).clone();
-        let ktok = format!("{}:{}", cls, key.hashable());
-        match r.weighted(&[36, 10, 14, 6, 2, 10, 10, 5]) {
+        // class, lookup hash (`Hashable::hashable`), and the hash the shard map itself computes for this key
+        let ktok = format!("{}:{}:{}", cls, key.hashable(), map_hash(&key));
+        match r.weighted(&[36, 10, 14, 6, 2, 10, 10, 5, 4, 2]) {
             0 => {
                 let g = sut.goc(kind, &key);
                 out.op(&format!("registry goc {} {}", kt, ktok), &g.id.to_string());
@@ -605,7 +720,7 @@ fn seq_case<K, S>(
                 rf.live.clear();
                 for kd in 0..3u8 {
                     if !sut.visit(kd).is_empty() {
-                        out.oracle_fail("clear left entries behind", &format!("kind {}", kd));
+                        rf.fail(out, "clear left entries behind", &format!("kind {}", kd));
                     }
                 }
                 out.count("clear");
@@ -635,24 +750,62 @@ fn seq_case<K, S>(
             6 => {
                 let v = sut.handles(kind);
                 let mut ans: Vec<(usize, usize)> = v.iter().map(|(k, g)| (cls_of(k), g.id)).collect();
-                out.op(&format!("registry handles {}", kt), &pairs_tok(&mut ans));
+                if finding.is_some() {
+                    // two-hash keys: when the registry holds several entries for one key, WHICH of their storages the
+                    // snapshot map keeps is the last one in hashbrown's iteration order (not modelled): compare the
+                    // key set with the model, and check here that every value is a storage registered under that key
+                    let mut cl: Vec<usize> = ans.iter().map(|(c, _)| *c).collect();
+                    cl.sort();
+                    out.op(&format!("registry handlescls {}", kt), &list(cl.iter().map(|c| c.to_string())));
+                    let vis: Vec<(usize, usize)> = sut.visit(kind).iter().map(|(k, g)| (cls_of(k), g.id)).collect();
+                    for p in &ans {
+                        if !vis.contains(p) {
+                            out.oracle_fail("get_*_handles maps a key to a storage that is not registered under it", &format!("{:?} not in {:?}", p, vis));
+                        }
+                    }
+                } else {
+                    out.op(&format!("registry handles {}", kt), &pairs_tok(&mut ans));
+                }
                 let got: Vec<(usize, usize)> = v.iter().map(|(k, g)| (cls_of(k), g.addr)).collect();
                 rf.check_listing(out, "get_*_handles", kind, &got);
                 lists += 1;
                 out.count("handles");
             }
-            _ => {
+            7 => {
                 if let Some(f) = counting {
                     let n = f(sut);
                     out.op("registry created", &n.to_string());
                     if n != rf.created {
-                        out.oracle_fail(
+                        rf.fail(
+                            out,
                             "number of storages created differs from the number of (kind, key) lifetimes started",
                             &format!("created {} lifetimes {}", n, rf.created),
                         );
                     }
                     out.count("created");
                 }
+            }
+            8 => {
+                // a recorder's `op` closure panics (caught by its caller) while the shard lock is held: after a create
+                // the shard's RwLock is poisoned from here on. The entry was inserted BEFORE `op` ran, so for the
+                // map this is an ordinary get-or-create; every later operation must still see, list, delete, retain
+                // and clear the keys of that shard (all lock calls recover the guard from the PoisonError).
+                let g = sut.goc_panic(kind, &key);
+                out.op(&format!("registry goc {} {}", kt, ktok), &g.id.to_string());
+                if rf.goc(out, kind, cls, &g, &canon_of(&key)) {
+                    hits += 1;
+                    out.count("goc.hit.op-panics(read lock, no poison)");
+                } else {
+                    out.count("goc.create.op-panics(shard poisoned)");
+                }
+            }
+            _ => {
+                // a retain predicate that panics at its first call: nothing removed, the shard it ran in is poisoned
+                let called = sut.retain_panic(kind);
+                out.op(&format!("registry retainpanic {}", kt), "ok");
+                let after: Vec<(usize, usize)> = sut.visit(kind).iter().map(|(k, g)| (cls_of(k), g.addr)).collect();
+                rf.check_listing(out, "visit after a retain whose predicate panicked at its first call", kind, &after);
+                out.count(if called { "retain.predicate-panics(shard poisoned)" } else { "retain.predicate-panics(kind empty)" });
             }
         }
     }
@@ -688,7 +841,7 @@ fn stream_a_case(out: &mut Out, r: &mut Rng, variant: usize) {
                 tab.iter().find(|(x, _)| *x == c).map(|(_, i)| *i).unwrap_or(usize::MAX)
             };
             let created = move |_: &Sut<Key, CountingStorage<Key>>| ctr.load(Ordering::SeqCst);
-            seq_case(out, r, &mut sut, &pool, &cls_of, &canon_key, Some(&created), nops);
+            seq_case(out, r, &mut sut, &pool, &cls_of, &canon_key, Some(&created), nops, None);
         }
         // Registry::atomic()
         2 => {
@@ -701,7 +854,7 @@ fn stream_a_case(out: &mut Out, r: &mut Rng, variant: usize) {
                 tab.iter().find(|(x, _)| *x == c).map(|(_, i)| *i).unwrap_or(usize::MAX)
             };
             out.count("registry.atomic");
-            seq_case(out, r, &mut sut, &pool, &cls_of, &canon_key, None, nops);
+            seq_case(out, r, &mut sut, &pool, &cls_of, &canon_key, None, nops, None);
         }
         // degenerate hash: different classes with the same full hash
         _ => {
@@ -721,9 +874,84 @@ fn stream_a_case(out: &mut Out, r: &mut Rng, variant: usize) {
             out.count("registry.colliding_hashes");
             let cls_of = |k: &DefaultHashable<CKey>| k.0.cls as usize;
             let created = move |_: &Sut<DefaultHashable<CKey>, CountingStorage<DefaultHashable<CKey>>>| ctr.load(Ordering::SeqCst);
-            seq_case(out, r, &mut sut, &pool, &cls_of, &classify, Some(&created), nops);
+            seq_case(out, r, &mut sut, &pool, &cls_of, &classify, Some(&created), nops, None);
         }
     }
+}
+
+/// id of the finding proposed in reports (REPORT.md of round 4): see `two_hash_case`
+const K_TWO_HASH: &str = "K-C06-two-hash";
+
+/// Stream T: a third-party key type that is `Hashable` through the trait's DEFAULT `hashable()` with a hasher of its
+/// own (`TKey` / `FlipHasher`). The registry looks entries up by `K::hashable()`; which hash a NEW entry is filed
+/// under is decided by the insertion call (`or_insert_with` re-hashes the key with the map's `BuildHasher`). The Lean
+/// model gets both real hash values with every key and follows the insertion call named by the source fact
+/// `reg_goc_insert_calls`; the reference map states the property. Where the two hashes differ and the entry is filed
+/// under the map's, every reference-map failure is a consequence of the finding `K-C06-two-hash`.
+fn two_hash_case(out: &mut Out, r: &mut Rng) {
+    fn classify(k: &TKey) -> String {
+        k.cls.to_string()
+    }
+    let nops = r.range(6, 30);
+    let ctr = Arc::new(AtomicUsize::new(0));
+    let mut sut = Sut::new(Registry::new(CountingStorage::<TKey> { next: ctr.clone(), classify }));
+    let ncls = r.range(1, 5);
+    let m = r.range(1, 4) as u64;
+    let mut pool = vec![];
+    for c in 0..ncls {
+        for v in 0..r.range(1, 3) {
+            pool.push((c, TKey { cls: c as u32, var: v as u32, h: c as u64 % m }));
+        }
+    }
+    for (_, k) in &pool {
+        if k.hashable() == map_hash(k) {
+            // FlipHasher differs from KeyHasher in the top bit by construction
+            out.oracle_fail("harness: the two-hash key type has equal hashes", &format!("{:?}", k));
+        }
+    }
+    out.count("registry.two_hash_key");
+    let cls_of = |k: &TKey| k.cls as usize;
+    let created = move |_: &Sut<TKey, CountingStorage<TKey>>| ctr.load(Ordering::SeqCst);
+    seq_case(out, r, &mut sut, &pool, &cls_of, &classify, Some(&created), nops, Some(K_TWO_HASH));
+}
+
+/// The innocent witness, run once per check and only counted: 64 distinct `SipKey`s (derived `Hash`,
+/// `type Hasher = std DefaultHasher`, default `hashable()`), each registered twice as a counter on a fresh registry.
+/// (Not compared with the model: with two unrelated hash functions a lookup may hit by an accidental 7-bit tag match.)
+fn sip_key_witness(out: &mut Out) {
+    fn classify(k: &SipKey) -> String {
+        k.0.clone()
+    }
+    let ctr = Arc::new(AtomicUsize::new(0));
+    let reg = Registry::new(CountingStorage::<SipKey> { next: ctr.clone(), classify });
+    let mut twice = 0;
+    for i in 0..64 {
+        let k = SipKey(format!("requests_total_{}", i));
+        let a = reg.get_or_create_counter(&k, |c| c.addr());
+        let b = reg.get_or_create_counter(&k.clone(), |c| c.addr());
+        if a != b {
+            twice += 1;
+        }
+    }
+    let listed = reg.get_counter_handles().len();
+    let mut visited = 0;
+    reg.visit_counters(|_, _| visited += 1);
+    let found = (0..64).filter(|i| reg.get_counter(&SipKey(format!("requests_total_{}", i))).is_some()).count();
+    if twice > 0 || visited != 64 || found != 64 {
+        out.case("sipkey witness");
+        out.oracle_fail(
+            "equal keys of a third-party key type (derived Hash, std DefaultHasher, default hashable()) got two storages / are not found again",
+            &format!("64 keys x 2 get_or_create_counter: {} keys got two storages, {} storages made, visit shows {} entries, get_counter finds {}", twice, ctr.load(Ordering::SeqCst), visited, found),
+        );
+    }
+    out.count(&format!(
+        "sipkey: 64 keys x 2 get_or_create: {} keys got two storages, {} storages made, visit shows {} entries, handles map {} keys, get_counter finds {}",
+        twice,
+        ctr.load(Ordering::SeqCst),
+        visited,
+        listed,
+        found
+    ));
 }
 
 // ---------------------------------------------------------------------------------------------
@@ -781,7 +1009,7 @@ fn lazy_clone_cases(out: &mut Out, r: &mut Rng, thorough: bool) {
             let kt = kind_tok(kind);
             let canon = canon_key(key);
             let g0 = sut.goc(kind, key);
-            out.op(&format!("registry goc {} 0:{}", kt, key.hashable()), &g0.id.to_string());
+            out.op(&format!("registry goc {} 0:{}:{}", kt, key.hashable(), map_hash(&key)), &g0.id.to_string());
             rf.goc(out, kind, 0, &g0, &canon);
             let grants = || list(trace.iter().map(|(t, id)| format!("{}:{}", t, id)));
             let mut last: Option<Key> = None;
@@ -790,7 +1018,7 @@ fn lazy_clone_cases(out: &mut Out, r: &mut Rng, thorough: bool) {
                     out.oracle_fail("a clone taken while the original was being hashed for the first time is not == the original", &grants());
                 }
                 let g = sut.goc(kind, &cl);
-                out.op(&format!("registry goc {} 0:{}", kt, cl.hashable()), &g.id.to_string());
+                out.op(&format!("registry goc {} 0:{}:{}", kt, cl.hashable(), map_hash(&cl)), &g.id.to_string());
                 let before = out.n_oracle_fail;
                 rf.goc(out, kind, 0, &g, &canon);
                 if out.n_oracle_fail != before {
@@ -808,10 +1036,10 @@ fn lazy_clone_cases(out: &mut Out, r: &mut Rng, thorough: bool) {
             rf.check_listing(out, "get_*_handles", kind, &got);
             if let Some(cl) = last {
                 let b = sut.del(kind, &cl);
-                out.op(&format!("registry del {} 0:{}", kt, cl.hashable()), &b.to_string());
+                out.op(&format!("registry del {} 0:{}:{}", kt, cl.hashable(), map_hash(&cl)), &b.to_string());
                 rf.del(out, kind, 0, b);
                 let g = sut.get(kind, key);
-                out.op(&format!("registry get {} 0:{}", kt, key.hashable()), &g.as_ref().map_or("~".to_string(), |g| g.id.to_string()));
+                out.op(&format!("registry get {} 0:{}:{}", kt, key.hashable(), map_hash(&key)), &g.as_ref().map_or("~".to_string(), |g| g.id.to_string()));
                 rf.get(out, kind, 0, &g);
             }
             out.count("lazy-clone schedules");
@@ -848,7 +1076,7 @@ fn call_tok(c: &BCall) -> String {
         OpK::Get => "r",
         OpK::Del => "d",
     };
-    format!("{}/{}/{}:{}", o, kind_tok(c.kind), c.cls, c.key.get_hash())
+    format!("{}/{}/{}:{}:{}", o, kind_tok(c.kind), c.cls, c.key.get_hash(), map_hash(&c.key))
 }
 
 fn prog_tok(p: &[BCall]) -> String {
@@ -1074,17 +1302,37 @@ fn b_one(out: &mut Out, pre: &[BCall], progs: &[Vec<BCall>], classes: &[(String,
 }
 
 fn b_gen(r: &mut Rng, out: &mut Out) -> (Vec<BCall>, Vec<Vec<BCall>>, Vec<(String, usize)>) {
-    let ns = r.range(1, 2);
-    let pool = key_pool(r, out, ns, None);
+    // (round 4) one case in three races in a POPULATED shard: 4-6 classes filtered into one shard, 3-4 of them
+    // registered beforehand in the raced kind (hashbrown's smallest table holds 3 entries: the racing creators' inserts
+    // make it grow between one thread's read miss and its write-section re-check), all calls in that one kind
+    let populated = r.chance(1, 3);
+    let ns = if populated { r.range(4, 6) } else { r.range(1, 2) };
+    let pool = key_pool(r, out, ns, if populated { Some(real_mask()) } else { None });
     let classes = cls_table(&pool);
+    let kind0 = [0u8, 1, 2][r.weighted(&[4, 1, 2])];
     let mk = |r: &mut Rng, op: OpK| {
         let (cls, key) = r.pick(&pool).clone();
         // all three kinds: the three get_or_create_* are separate copies of the race-sensitive code
-        let kind = [0u8, 1, 2][r.weighted(&[4, 1, 2])];
+        let kind = if populated { kind0 } else { [0u8, 1, 2][r.weighted(&[4, 1, 2])] };
         let _ = key.get_hash();
         BCall { op, kind, cls, key }
     };
-    let pre: Vec<BCall> = (0..r.below(3)).map(|_| mk(r, OpK::Goc)).collect();
+    let pre: Vec<BCall> = if populated {
+        out.count("race.populated_shard");
+        let mut seen_cls: Vec<usize> = vec![];
+        let mut v = vec![];
+        let want = r.range(3, 4);
+        for (cls, key) in &pool {
+            if seen_cls.len() < want && !seen_cls.contains(cls) {
+                seen_cls.push(*cls);
+                let _ = key.get_hash();
+                v.push(BCall { op: OpK::Goc, kind: kind0, cls: *cls, key: key.clone() });
+            }
+        }
+        v
+    } else {
+        (0..r.below(3)).map(|_| mk(r, OpK::Goc)).collect()
+    };
     let n = r.range(2, 3);
     let mut progs = vec![];
     for _ in 0..n {
@@ -1280,9 +1528,9 @@ impl LCallR {
 fn lcall_tok(c: &LCallR) -> String {
     let kt = kind_tok(c.kind);
     match &c.op {
-        LOp::Goc => format!("g/{}/{}:{}", kt, c.cls, c.key.get_hash()),
-        LOp::Get => format!("r/{}/{}:{}", kt, c.cls, c.key.get_hash()),
-        LOp::Del => format!("d/{}/{}:{}", kt, c.cls, c.key.get_hash()),
+        LOp::Goc => format!("g/{}/{}:{}:{}", kt, c.cls, c.key.get_hash(), map_hash(&c.key)),
+        LOp::Get => format!("r/{}/{}:{}:{}", kt, c.cls, c.key.get_hash(), map_hash(&c.key)),
+        LOp::Del => format!("d/{}/{}:{}:{}", kt, c.cls, c.key.get_hash(), map_hash(&c.key)),
         LOp::Clear => "c".to_string(),
         LOp::Visit { hold } => format!("v/{}/{}", kt, *hold as u8),
         LOp::Retain { keep, hold } => format!(
@@ -1925,6 +2173,18 @@ pub fn run(cfg: &Cfg, out: &mut Out) {
                 let mut r = Rng::new(0xC06 + 16 * i as u64 + j);
                 l_one(out, pre, progs, &fclasses, &mut r);
             }
+        }
+    }
+
+    // stream T: third-party key type with its own hasher (default `Hashable::hashable()`)
+    {
+        out.case("sipkey witness");
+        sip_key_witness(out);
+        let n_t = (cfg.cases / 12).max(8);
+        for i in 0..n_t {
+            let mut r = root.fork(3_000_000 + i as u64);
+            out.case(&format!("twohash seed={} i={}", cfg.seed, i));
+            two_hash_case(out, &mut r);
         }
     }
 
